@@ -55,7 +55,18 @@ def wait_for_graph_def(f):
 def record_def(f):
     """The dead-letter recorder: the crate function taking a DeadLetterReason by value."""
     def go():
-        c = [d for d, fn in f.fns.items() if fn.get("has_body") and any(f.ty(t).is_adt("dead_letter::DeadLetterReason") for t in fn["inputs"])]
+        c = [d for d, fn in f.fns.items() if fn.get("has_body") and f.by_def.get(d) and any(f.ty(t).is_adt("dead_letter::DeadLetterReason") for t in fn["inputs"])]
+        if len(c) > 1:
+            # the recorder may delegate to private helpers that also take the reason: the entry point is the candidate
+            # that no other candidate calls
+            called = set()
+            for d in c:
+                for b in f.family(d):
+                    for blk in b.calls():
+                        x = (blk.term.get("fn") or {}).get("def")
+                        if x in c and x != d:
+                            called.add(x)
+            c = [d for d in c if d not in called]
         return c[0] if len(c) == 1 else None
     return _get(f, "record", go)
 
